@@ -273,3 +273,15 @@ PROPS["C14"] = dict(
     level_text="Sampled sequences; the oracle is exact on each (unique indices), so any loss, duplication, reordering, unmeasured budget approval or wrong heading in an explored case is reported.",
     level_note="Trusted base: the generator's model of 'governing title' and the counters defined in harness/src/wl/c14.rs.",
 )
+
+PROPS["C26"] = dict(
+    title="CMaps map every code to the Unicode they define",
+    level="exploration",
+    technique="in-process reference-model monitor: the generator's entry list is the model; CMap::parse / map / is_valid_code / to_unicode are probed at and around every entry and codespace boundary (complete enumeration of 1-byte and, for sampled cases, 2-byte code spaces) in a canonical and a lexically varied rendering; ToUnicodeCMapBuilder output is parsed back and compared entry by entry with the map it was built from",
+    stages=[rust()],
+    rule="code spaces of 1-4 bytes incl. mixed widths (Shift-JIS and EUC shapes) and non-rectangular-looking ranges such as <8140><9FFC>; bfchar, bfrange in offset form (incl. ranges whose low byte carries, astral surrogate pairs, multi-character destinations) and array form (incl. fewer destinations than codes); sections of more than 100 entries split; overlapping entries in a quarter of the cases (any defined value accepted there); renderings: LF / CRLF / CR line ends, comments, everything on one line, no spaces, spaces inside hex strings, lowercase hex, missing counts. Builder: 0-5000 entries, code length 1-4, dense and sparse, BMP / astral / multi-character values, add_single_byte_mapping. Non-trivial: >= 2 entries; distinct by case",
+    assumptions=["codespace membership is byte-wise (ISO 32000-1 9.7.6.2, Adobe TN 5014)", "bfrange offset arithmetic carries across bytes of the destination; generated destinations never overflow or leave the surrogate ranges", "explicit entries that lie outside the declared codespace are not judged (the library documents that it honours them, issue #302)", "where entries overlap, any value one of them defines is accepted"],
+    floors={"quick": {"evaluations": 6000, "distinct": 3000, "counters": {"codes_probed": 2000000, "builder_entries_checked": 20000, "mapped_probes.bfrange_offset_crossing_byte_boundary": 10000}}, "thorough": {"evaluations": 400000, "distinct": 200000}},
+    level_text="Sampled CMaps, boundary-directed and partly exhaustive probing of each; the model is exact on every probed code.",
+    level_note="Trusted base: the model interpreter (candidates / in_codespace / dst_plus) in harness/src/wl/c26.rs. The writer's font-driven ToUnicode generation is exercised by C13, not here.",
+)
